@@ -75,8 +75,16 @@ def parse_sel(line):
     return out
 
 
-def cells_differ(a, b):
-    """compare two selected-output tables at relative 1e-7; returns description or None"""
+LAG_COLS = ("pressure", "total mol", "volume")
+
+
+def lag_col(h):
+    return h in LAG_COLS or h.startswith("g_")
+
+
+def cells_differ(a, b, skip=None, skipped=None):
+    """compare two selected-output tables at relative 1e-7; returns description or None. Columns for which skip(heading)
+    holds are not judged; their differences are appended to `skipped`."""
     if set(a) != set(b):
         return f"user numbers {sorted(a)} vs {sorted(b)}"
     for un in a:
@@ -89,9 +97,20 @@ def cells_differ(a, b):
                 continue
             if x[0] == "D" and y[0] == "D":
                 u, v = unhexd(x[1:]), unhexd(y[1:])
-                if u == v or abs(u - v) <= REL * max(abs(u), abs(v)):
-                    continue
                 h = unhx(heads[k % nc][1:]) if heads[k % nc][0] == "S" else "?"
+                scale = max(abs(u), abs(v))
+                # a change-in-moles column (d_X, dk_X) is a difference of amounts: the tolerance refers to the amount X
+                base = h[2:] if h.startswith("d_") else ("k_" + h[3:] if h.startswith("dk_") else None)
+                if base is not None:
+                    for j in range(nc):
+                        if heads[j][0] == "S" and unhx(heads[j][1:]) == base and ca[(k // nc) * nc + j][0] == "D":
+                            scale = max(scale, abs(unhexd(ca[(k // nc) * nc + j][1:])))
+                if u == v or abs(u - v) <= REL * scale:
+                    continue
+                if skip and skip(h):
+                    if skipped is not None:
+                        skipped.append(f"row {k // nc} column {h}: {u!r} vs {v!r}")
+                    continue
                 return f"table {un} row {k // nc} column {h}: {u!r} vs {v!r}"
             return f"table {un} cell {k}: {x} vs {y}"
     return None
@@ -159,49 +178,27 @@ def eval_case(ctx, exe, case, status_of, deep=True):
     if rcB != 0:
         res["problems"].append(("read-error", f"{rcB} errors reading the dump into a fresh instance: {errB[:400]}"))
         return res
+    skip = lag_col if "gas" in case["kinds"] else None
+    lag = []
     ops2 = list(ops)
     fresh("C", ops2)
     idx["readC"] = len(ops2)
     ops2.append(f"run C {hx(d2 + DUMP_ALL)}")
     idx["d3"] = len(ops2)
     ops2.append("dumpstr C")
-    # follow-ups (A last for RUN_CELLS: it stores into the cell)
+    # follow-ups on the original A and the restored B (RUN_CELLS stores into the cell, so it comes last)
     fu = case["followups"] if deep else case["followups"][:1]
     idx["fu"] = []
     for name, text in fu:
-        tgt = ["A", "B"]
         rec = {}
-        for t in tgt:
+        for t in ("A", "B"):
             rec[t] = len(ops2)
             ops2 += [f"run {t} {hx(text)}", f"sel {t}"]
         idx["fu"].append((name, rec))
-    # in-memory copies of A's ORIGINAL state cannot be taken after follow-ups changed A (RUN_CELLS) → use a twin A2
-    twin = []
-    fresh("A2", twin)
-    twin.append(f"run A2 {hx(case['setup'])}")
-    for nm in ("D", "E", "F"):
-        fresh(nm, twin)
-    idx["twin0"] = len(ops2)
-    ops2 += twin
-    idx["rawA2"] = len(ops2)
-    ops2.append("rawall A2")
-    ops2.append("bincopy A2 D")
-    idx["rawD"] = len(ops2)
-    ops2.append("rawall D")
-    ops2.append("sercopy A2 E 0 12")
-    idx["rawE"] = len(ops2)
-    ops2.append("rawall E")
-    ops2.append("icopy A2 F")
-    idx["rawF"] = len(ops2)
-    ops2.append("rawall F")
     name0, text0 = fu[0]
-    idx["fuc"] = {}
-    for t in ("A2", "D", "F"):
-        idx["fuc"][t] = len(ops2)
-        ops2 += [f"run {t} {hx(text0)}", f"sel {t}"]
     # SOLUTION_MODIFY: perturb the restored solution, then restore only totals / total_h / total_o / cb
-    sol = next((f for k, f in sorted(ents1.items()) if k == ("SOLUTION_RAW", 1)), None)
-    if sol is not None and "Isotope" not in " ".join(sol):
+    sol = ents1.get(("SOLUTION_RAW", 1))
+    if sol is not None and not any(p.startswith("Isotope") for p in sol):
         fresh("M", ops2)
         ops2.append(f"run M {hx(d1)}")
         tot = {p.split("/", 1)[1]: v for p, v in sol.items() if p.startswith("totals/")}
@@ -224,7 +221,7 @@ def eval_case(ctx, exe, case, status_of, deep=True):
         e2, e3 = raw_entities(d2), raw_entities(d3)
         diff = [(k, p) for k in e2 for p in set(e2[k]) | set(e3.get(k, {})) if e2[k].get(p) != e3.get(k, {}).get(p)][:5]
         res["problems"].append(("not-fixed", f"dump text still changes in the second cycle: {diff or 'layout'}"))
-    # model correspondence: where first and second dump differ, the model must call the key dropped (or the block nested)
+    # model correspondence: where first and second dump differ, the model must call the key dropped
     if d2 != d1:
         res["d1_ne_d2"] = True
         e2 = raw_entities(d2)
@@ -237,68 +234,111 @@ def eval_case(ctx, exe, case, status_of, deep=True):
                 if f1.get(p) == f2.get(p):
                     continue
                 st = status_of(KW2TAB[k[0]], p)
-                if st not in ("dropped", "work-block"):
+                if f1.get(p) is None and st.endswith("+guarded"):
+                    continue        # written only under a condition on its own member: absent first, fresh value afterwards
+                st = st.replace("+guarded", "")
+                if st != "dropped":
                     res["problems"].append(("model", f"{k} {p}: '{f1.get(p)}' → '{f2.get(p)}' but the model says {st}"))
     # follow-ups
+    selA0 = None
     for name, rec in idx["fu"]:
         ra = parse_run(out[rec["A"]])
         rb = parse_run(out[rec["B"]])
         if ra[0] != 0:
             res["notes"].append(f"follow-up {name} fails on the original state (not judged)")
             continue
+        if selA0 is None and name == name0:
+            selA0 = parse_sel(out[rec["A"] + 1])
         res["followups"] += 1
         if rb[0] != 0:
             res["problems"].append(("followup", f"follow-up {name} runs on the original state but fails on the restored one: {rb[1][:300]}"))
             continue
-        d = cells_differ(parse_sel(out[rec["A"] + 1]), parse_sel(out[rec["B"] + 1]))
+        d = cells_differ(parse_sel(out[rec["A"] + 1]), parse_sel(out[rec["B"] + 1]), skip, lag)
         if d:
             res["problems"].append(("followup", f"follow-up {name}: original vs restored: {d}"))
-    # copies
-    rawA2 = unhx(out[idx["rawA2"]].split()[1])
-    if rawA2 != rawA:
-        res["notes"].append("twin instance differs from the original (non-deterministic setup?)")
-    else:
-        for nm, key in (("bincopy", "rawD"), ("icopy", "rawF")):
-            got = unhx(out[idx[key]].split()[1])
-            res["copies"] += 1
-            if got != rawA2:
-                ea, eb = raw_entities(rawA2), raw_entities(got)
-                diff = [(k, p, ea[k].get(p), eb.get(k, {}).get(p)) for k in ea for p in ea[k] if ea[k].get(p) != eb.get(k, {}).get(p)][:4]
-                res["problems"].append((nm, f"dump_raw of the copy differs from the original: {diff or 'entities ' + str(sorted(set(ea) ^ set(eb)))}"))
-        gotE = raw_entities(unhx(out[idx["rawE"]].split()[1]))
-        ea = raw_entities(rawA2)
-        res["copies"] += 1
-        for k, fe in gotE.items():
-            if k in ea and fe != ea[k]:
-                diff = [(p, ea[k].get(p), fe.get(p)) for p in sorted(set(fe) | set(ea[k])) if ea[k].get(p) != fe.get(p)][:4]
-                res["problems"].append(("sercopy", f"{k} after Serialize/Deserialize: {diff}"))
-        ser_kinds = {"SOLUTION_RAW", "EXCHANGE_RAW", "GAS_PHASE_RAW", "KINETICS_RAW", "EQUILIBRIUM_PHASES_RAW", "SOLID_SOLUTIONS_RAW",
-                     "SURFACE_RAW", "REACTION_TEMPERATURE_RAW", "REACTION_PRESSURE_RAW"}
-        miss = [k for k in ea if k[0] in ser_kinds and 0 <= k[1] <= 12 and k not in gotE]
-        if miss:
-            res["problems"].append(("sercopy", f"entities lost by Serialize/Deserialize: {miss}"))
-        ra = parse_run(out[idx["fuc"]["A2"]])
-        if ra[0] == 0:
-            sa = parse_sel(out[idx["fuc"]["A2"] + 1])
-            for t, nm in (("D", "bincopy"), ("F", "icopy")):
-                rt = parse_run(out[idx["fuc"][t]])
-                if rt[0] != 0:
-                    res["problems"].append((nm, f"follow-up fails on the copy: {rt[1][:200]}"))
-                    continue
-                d = cells_differ(sa, parse_sel(out[idx["fuc"][t] + 1]))
-                if d:
-                    res["problems"].append((nm, f"follow-up on the copy differs: {d}"))
     if "mod" in idx:
         r1, r2, r3 = (parse_run(out[idx["mod"] + j]) for j in range(3))
-        ra = parse_run(out[idx["fu"][0][1]["A"]])
-        if r1[0] == 0 and ra[0] == 0:
+        if r1[0] == 0 and selA0 is not None:
             res["modify"] = True
             if r2[0] != 0 or r3[0] != 0:
                 res["problems"].append(("modify", f"SOLUTION_MODIFY restore fails: {(r2[1] + r3[1])[:300]}"))
             else:
-                d = cells_differ(parse_sel(out[idx["fu"][0][1]["A"] + 1]), parse_sel(out[idx["mod"] + 3]))
+                d = cells_differ(selA0, parse_sel(out[idx["mod"] + 3]), skip, lag)
                 if d:
                     res["problems"].append(("modify", f"after SOLUTION_MODIFY restoring totals/H/O/cb: {d}"))
+    if lag:
+        res["lag"] = lag[:3]
+    # ---- stage 3 (own process: the copy constructor can take the process down): in-memory copies of a twin A2
+    if not deep:
+        return res
+    ops3 = []
+    fresh("A2", ops3)
+    ops3.append(f"run A2 {hx(case['setup'])}")
+    for nm in ("D", "E"):
+        fresh(nm, ops3)
+    i_rawA2 = len(ops3)
+    ops3 += ["rawall A2", "bincopy A2 D", "rawall D", "sercopy A2 E 0 12", "rawall E"]
+    i_fu = len(ops3)
+    ser_ok = not ({"mix", "rxn"} & set(case["kinds"]))
+    for t in ("A2", "D") + (("E",) if ser_ok else ()):
+        ops3 += [f"run {t} {hx(text0)}", f"sel {t}"]
+    out, rc, err = run_ops(ctx, exe, ops3)
+    if len(out) <= i_fu:
+        res["problems"].append(("crash", f"process died during the StorageBin/Serializer copies rc={rc} {err}"))
+        return res
+    nonneg = lambda ents: {k: v for k, v in ents.items() if k[1] >= 0}
+    ea = nonneg(raw_entities(unhx(out[i_rawA2].split()[1])))
+    if ea != nonneg(raw_entities(rawA)):
+        res["notes"].append("twin instance differs from the original")
+        return res
+    def textdiff(eb):
+        return [(k, p, ea[k].get(p), eb.get(k, {}).get(p)) for k in ea for p in sorted(set(ea[k]) | set(eb.get(k, {})))
+                if ea[k].get(p) != eb.get(k, {}).get(p)][:4]
+    eD = nonneg(raw_entities(unhx(out[i_rawA2 + 2].split()[1])))
+    res["copies"] += 1
+    if eD != ea:
+        res["problems"].append(("bincopy", f"dump_raw of the StorageBin copy differs: {textdiff(eD) or sorted(set(ea) ^ set(eD))}"))
+    eE = nonneg(raw_entities(unhx(out[i_rawA2 + 4].split()[1])))
+    res["copies"] += 1
+    ser_kinds = {"SOLUTION_RAW", "EXCHANGE_RAW", "GAS_PHASE_RAW", "KINETICS_RAW", "EQUILIBRIUM_PHASES_RAW", "SOLID_SOLUTIONS_RAW",
+                 "SURFACE_RAW", "REACTION_TEMPERATURE_RAW", "REACTION_PRESSURE_RAW"}
+    miss = [k for k in ea if k[0] in ser_kinds and 0 <= k[1] <= 12 and k not in eE]
+    if miss:
+        res["problems"].append(("sercopy", f"entities lost by Serialize/Deserialize: {miss}"))
+    res["ser_text_diffs"] = sorted({f"{k[0]}:{p.split('/')[-1].split('#')[0]}" for k in eE if k in ea for p in set(eE[k]) | set(ea[k])
+                                    if eE[k].get(p) != ea[k].get(p)})
+    if len(out) > i_fu + 3:
+        ra = parse_run(out[i_fu])
+        if ra[0] == 0:
+            sa = parse_sel(out[i_fu + 1])
+            for j, (t, nm) in enumerate((("D", "bincopy"),) + ((("E", "sercopy"),) if ser_ok else ())):
+                pos = i_fu + 2 + 2 * j
+                rt = parse_run(out[pos])
+                if rt[0] != 0:
+                    res["problems"].append((nm, f"follow-up runs on the original but fails on the copy: {rt[1][:200]}"))
+                    continue
+                res["followups"] += 1
+                d = cells_differ(sa, parse_sel(out[pos + 1]), skip, lag)
+                if d:
+                    res["problems"].append((nm, f"follow-up on the copy differs: {d}"))
+    # ---- stage 4 (own process): Phreeqc copy constructor → InternalCopy
+    ops4 = []
+    fresh("A3", ops4)
+    ops4 += [f"run A3 {hx(case['setup'])}", "rawall A3", "icopyraw A3"]
+    out, rc, err = run_ops(ctx, exe, ops4)
+    good = len(out) == len(ops4) and rc == 0 and len(out[-1].split()) == 2 and out[-1].startswith("raw ")
+    if not good:
+        res["problems"].append(("icopy", f"Phreeqc copy constructor (InternalCopy) fails: rc={rc} {out[-1][:60] if out else ''} {err[-120:]}"))
+    else:
+        res["copies"] += 1
+        e0 = nonneg(raw_entities(unhx(out[-2].split()[1])))
+        eF = nonneg(raw_entities(unhx(out[-1].split()[1])))
+        if eF != e0:
+            diff = [(k, p, e0[k].get(p), eF.get(k, {}).get(p)) for k in e0 for p in sorted(set(e0[k]) | set(eF.get(k, {})))
+                    if e0[k].get(p) != eF.get(k, {}).get(p)][:4]
+            res["problems"].append(("icopy", f"dump_raw of the copy-constructed engine differs: {diff or sorted(set(e0) ^ set(eF))}"))
+    if lag:
+        res["lag"] = lag[:3]
     return res
 
 
@@ -328,9 +368,7 @@ def model_status(ctx, tables):
                 t = bytab[wk["child"]]
                 continue
             s = st[t["name"]].get(wk["key"].lower() if wk["key"] else "_", "?")
-            if s == "restored" and wk["section"] == "work" and wk["kind"] in ("namedouble", "lines"):
-                return "restored"
-            return s
+            return s + ("+guarded" if wk["guard"][0] == "nonempty" else "")
         return "?"
     return status_of
 
@@ -371,6 +409,30 @@ def find_option_correspondence(ctx, exe, tables, n_random):
         if real != t["vopts"]:
             bad.append((("vopts", t["name"]), real, t["vopts"]))
     return len(qs), bad
+
+
+# ---------------------------------------------------------------------------------------------- known signatures
+SEL_GAS = ("SELECTED_OUTPUT 1\n -reset false\n -pH true\n -totals Na Cl C\n -gases CH4(g) H2O(g) CO2(g)\n")
+MIN_CASES = {
+    "gascomp-p_read-nan": dict(db="phreeqc.dat", adds="", kinds=["gas"], feat=["gas:fixed_volume"], react=False,
+        setup="SOLUTION 1\n C 1\nEND\nGAS_PHASE 1\n -fixed_volume\n -equilibrate 1\n CO2(g)\nEND\n",
+        followups=[("use", SEL_GAS + "USE solution 1\nUSE gas_phase 1\nEND\n")]),
+    "gas-phase-first-step-lag": dict(db="phreeqc.dat", adds="", kinds=["gas"], feat=["gas:fixed_volume"], react=True,
+        setup="SOLUTION 1\n temp 60\n Na 1\n Cl 1\nEND\nGAS_PHASE 1\n -fixed_volume\n -volume 1\n -temperature 40\n CH4(g) 0.005\n H2O(g) 0.03\n"
+              "END\nUSE solution 1\nUSE gas_phase 1\nREACTION 5\n NaCl 1\n 0.0005\nSAVE solution 1\nSAVE gas_phase 1\nEND\n",
+        followups=[("use", SEL_GAS + "USE solution 1\nUSE gas_phase 1\nREACTION 9\n HCl 1\n 0.001\nEND\n")]),
+    "copy-constructor-pitzer": dict(db="pitzer.dat", adds="", kinds=[], feat=[], react=False,
+        setup="SOLUTION 1\n Na 1\n Cl 1\nEND\n", followups=[("use", "USE solution 1\nEND\n")]),
+}
+
+
+def signature(case, r, p):
+    """known-finding signature of a problem, or None"""
+    if p[0] == "read-error" and "initial partial pressure" in p[1] and "gas" in case["kinds"]:
+        return "gascomp-p_read-nan"
+    if p[0] == "icopy" and case["db"] == "pitzer.dat" and "copy constructor" in p[1]:
+        return "copy-constructor-pitzer"
+    return None
 
 
 # ---------------------------------------------------------------------------------------------- run
@@ -448,8 +510,16 @@ def run(ctx):
     isotope_related = lambda c, p: c["db"] == "iso.dat" and p[0] in ("read-error", "not-fixed", "followup", "model")
     seen_classes = set()
     iso_replay = None
+    sig_seen = {}
+    for c, r in zip(cases, results):
+        if r.get("lag"):
+            sig_seen.setdefault("gas-phase-first-step-lag", []).append(r["lag"][0])
     for c, p in problems:
         if p[0] == "setup":
+            continue
+        sg = signature(c, None, p)
+        if sg:
+            sig_seen.setdefault(sg, []).append(p[1][:160])
             continue
         if isotope_related(c, p) and any(d[0] in ("Solution", "SolutionIsotope") for d in static):
             if iso_replay is None:
@@ -470,10 +540,28 @@ def run(ctx):
                           found_input=False)
         else:
             ctx.violation(f"{what[0]}: {what[1]}", {"case": small, "problem": list(what)})
+    # ---- departures with a known signature: confirmed on a hand-minimised case, routed as findings
+    ctx.cov["signature_hits"] = {k: len(v) for k, v in sig_seen.items()}
+    for key, mc in MIN_CASES.items():
+        r = eval_case(ctx, exe, mc, status_of)
+        evals += 1
+        hit = [p for p in r["problems"] if signature(mc, r, p) == key] or ([("followup", "first reaction step with a gas phase: " + r["lag"][0])]
+                                                                              if key == "gas-phase-first-step-lag" and r.get("lag") else [])
+        if hit:
+            ctx.finding(key, hit[0][1][:300], {"case": mc, "problem": list(hit[0]), "seen_in_generated_cases": len(sig_seen.get(key, []))})
+        elif key in sig_seen:
+            ctx.violation(f"{key}: seen in generated states but not on the minimal case: {sig_seen[key][0]}", {"seen": sig_seen[key][:3]})
+        other = [p for p in r["problems"] if p[0] != "setup" and signature(mc, r, p) != key]
+        if other:
+            ctx.violation(f"{other[0][0]}: {other[0][1]}", {"case": mc, "problem": list(other[0])})
     # ---- static defects: each one is a finding (known → KNOWN-FINDING) with the isotope round trip as replay
+    done_keys = set()
     for d in static:
         key = FINDING_KEYS.get((d[0], d[1], d[2]), f"{d[0]}.{d[2]}.{d[1]}")
-        replay = {"defect": list(d)}
+        if key in done_keys:
+            continue
+        done_keys.add(key)
+        replay = {"defect": list(d), "all_defects_of_this_key": [list(x) for x in static if FINDING_KEYS.get((x[0], x[1], x[2])) == key]}
         if iso_replay and d[0] in ("Solution", "SolutionIsotope"):
             small = shrink_case(ctx, exe, iso_replay[0], iso_replay[1][0], status_of) if "iso_small" not in ctx.cov else ctx.cov["iso_small"]
             ctx.cov["iso_small"] = small
@@ -495,7 +583,7 @@ def run(ctx):
                        "items, prefix and exact mode, on the real vopts vectors vs pmodel raw. States: seeded inputs defining 1–5 entity "
                        "kinds (histogram in input_distribution) on phreeqc.dat / pitzer.dat / iso.dat, 75 % reacted and SAVEd; per state: dump, "
                        "read into a fresh instance (no errors), dump, read, dump (equal text), follow-up USE…/RUN_CELLS on original vs "
-                       "restored (1e-7), SOLUTION_MODIFY perturb-and-restore, StorageBin / Serializer / operator= copies (dump_raw text and "
+                       "restored (1e-7), SOLUTION_MODIFY perturb-and-restore, StorageBin / Serializer / copy-constructor (InternalCopy) copies (dump_raw text and "
                        "follow-up); differences between first and second dump must be on keys the model calls dropped. distinct = "
                        "distinct setup inputs that ran without error (judged).")
     if not ok and not ctx.violations:
@@ -552,7 +640,7 @@ MANIFEST = dict(
           "Tie: translator re-run on every check (fails closed on unknown statement shapes; Python mirror of the obligations cross-checked with "
           "the Lean `failing`); real CParser::find_option on the real vopts vs the model; generated states of every entity kind: dump → fresh "
           "instance → dump → fresh instance → dump (no errors, equal text after ≤1 cycle), follow-up calculations at 1e-7, SOLUTION_MODIFY, "
-          "StorageBin / Serializer / operator= (InternalCopy) copies; first-vs-second dump differences must be predicted by the model."),
+          "StorageBin / Serializer / copy-constructor (InternalCopy) copies; first-vs-second dump differences must be predicted by the model."),
     note=("Trusted: gen_raw.py (regex/brace extraction), rawparse.py, harness/ph_raw.cpp, g++. Partial: print/parse of one value (14 digits) is "
           "the hypothesis Sys.ValOk, exercised not proved; the record model is flat per class (a nested block is one field whose norm is the "
           "child's cycle); continuation lines of name/value blocks whose name equals an option (e.g. element La in an exchanger's totals) are "
